@@ -73,6 +73,10 @@ def build(flavour="plain", quiet=True):
     inc, suf = py_include()
     so = os.path.join(out, "_tskit" + suf)
     if os.path.exists(so):
+        try:
+            os.utime(out)        # a build in use stays among the most recent ones (pruning below goes by mtime)
+        except OSError:
+            pass
         return out
     # prune older builds of this flavour, keeping the few most recent (other checks may be using them)
     if os.path.isdir(BUILD_ROOT):
